@@ -489,6 +489,24 @@ func ExtendVoucher[T protocol.PublicKeyOrChain](v *Voucher, owner crypto.Signer,
 		return nil, fmt.Errorf("owner key for signing does not match the last signature of the voucher to be extended")
 	}
 
+	// The next owner's key must have the same type and size/curve as the
+	// manufacturer key, like the signing owner's key above
+	var nextOwnerKey crypto.PublicKey
+	switch next := any(nextOwner).(type) {
+	case []*x509.Certificate:
+		if len(next) == 0 {
+			return nil, fmt.Errorf("next owner certificate chain is empty")
+		}
+		nextOwnerKey = next[0].PublicKey
+	default:
+		nextOwnerKey = next
+	}
+	if mfgKey, err := v.Header.Val.ManufacturerKey.Public(); err != nil {
+		return nil, fmt.Errorf("error parsing manufacturer key from header: %w", err)
+	} else if !sameKeyTypeAndSize(mfgKey, nextOwnerKey) {
+		return nil, fmt.Errorf("next owner key did not match the type and size/curve of the manufacturer key")
+	}
+
 	// Create the next owner PublicKey structure
 	asCOSE := v.Header.Val.ManufacturerKey.Encoding == protocol.CoseKeyEnc
 	if _, ok := any(nextOwner).([]*x509.Certificate); ok {
@@ -542,6 +560,20 @@ func ExtendVoucher[T protocol.PublicKeyOrChain](v *Voucher, owner crypto.Signer,
 	}
 	xv.Entries = append(xv.Entries, *entry)
 	return xv, nil
+}
+
+// sameKeyTypeAndSize reports whether two public keys are both ECDSA keys on
+// the same curve or both RSA keys of the same size.
+func sameKeyTypeAndSize(a, b crypto.PublicKey) bool {
+	switch a := a.(type) {
+	case *ecdsa.PublicKey:
+		b, ok := b.(*ecdsa.PublicKey)
+		return ok && b != nil && a.Curve == b.Curve
+	case *rsa.PublicKey:
+		b, ok := b.(*rsa.PublicKey)
+		return ok && b != nil && a.Size() == b.Size()
+	}
+	return false
 }
 
 // hashAlgFor determines the appropriate hash algorithm to use based on device
